@@ -499,3 +499,189 @@ class SChunk(Model):
 
     def sym_setattr(self, ctx, name, val):
         self.fields[name] = val
+
+
+# ---------------------------------------------------------------------------------------------
+# operations of the group-merging loop (C06): Series.apply(pure method), diff, Series < Series, fillna, table[mask],
+# .index[0], Series.loc / iloc[k], drop(index=k), to_numpy
+# ---------------------------------------------------------------------------------------------
+LIB_DOC['pandas.Series.apply(pure method)'] = ('s.apply(f) with f a method proved pure by its frame contract: the Series of f(x); f is '
+                                               'a function of x (A-DET), modelled by one uninterpreted function per method')
+LIB_DOC['pandas.Series.diff()'] = 'NaN in row 0, s[k] - s[k-1] in row k >= 1'
+LIB_DOC['pandas.Series < Series (same table)'] = 'element-wise comparison, False where either side is NaN'
+LIB_DOC['pandas.Series.fillna(False) of a bool Series'] = 'the same Series'
+LIB_DOC['pandas.DataFrame[bool Series]'] = 'the rows where the mask is True, in order, with their labels: len = number of True; .index[0] = label of the first'
+LIB_DOC['pandas.DataFrame.drop(index=k, inplace=True)'] = 'removes the row labelled k (RangeIndex: the k-th row); the rows behind it move up by one'
+
+
+def _series_apply_pure(self, ctx, fn):
+    from .engine import RepoFuncRef, PyRaise
+    interp = ctx.interp
+    if not isinstance(fn, RepoFuncRef):
+        raise Unsupported('Series.apply of this callable')
+    con = interp.reg.get(fn.qualname)
+    F = getattr(con, 'pure_function', None) if con is not None else None
+    if F is None or self.dtype != 'float':
+        raise Unsupported(f'Series.apply({fn.qualname}): the callee has no functional contract')
+    if con.raises:
+        # the callee may refuse (its raise condition does not depend on the element for the methods modelled here)
+        if ctx.choose(f'apply-{fn.qualname.split(".")[-1]}-raises', [False, True]):
+            raise PyRaise(next(iter(con.raises)), f'contract of {fn.qualname}')
+    at = self.at
+    ctx.used_expr_contracts.add(f'Series.apply({fn.qualname}) = element-wise the value the method returns (a function of its argument)')
+    if self.defd is not None:
+        f = smt.Forall(0, self.n, lambda i: self.defd(i), name='cd')
+        ctx.oblige('safe.column_defined.apply', f)
+    out = SSeries(self.n, lambda i: SFloat(F(to_real_parts(at(i))[1]), to_real_parts(at(i))[0], 'npfloat'), 'float')
+    return out
+
+
+def _series_diff(self, ctx):
+    if self.dtype not in ('float', 'int'):
+        raise Unsupported('diff of this dtype')
+    at = self.at
+
+    def g(i):
+        i = lift(i)
+        n0, v0 = to_real_parts(at(i))
+        n1, v1 = to_real_parts(at(i - 1))
+        return SFloat(v0 - v1, z3.Or(i <= 0, n0, n1), 'npfloat')
+    return SSeries(self.n, g, 'float')
+
+
+def _series_compare2(self, ctx, op, other, reflected):
+    from .engine import num_compare
+    if isinstance(other, SSeries):
+        a, b = self.at, other.at
+        ctx.safe('compare_same_length', self.n == other.n, exc='ValueError')
+
+        def g2(i):
+            r = num_compare(op, a(i), b(i))
+            return SBool(lift(r), 'npbool') if isinstance(r, bool) else r
+        return SSeries(self.n, g2, 'bool')
+    return _series_compare1(self, ctx, op, other, reflected)
+
+
+_series_compare1 = SSeries.sym_compare
+SSeries.sym_compare = _series_compare2
+SSeries.m_apply = _series_apply_pure
+SSeries.m_diff = _series_diff
+
+
+def _series_fillna(self, ctx, value):
+    if self.dtype == 'bool' and value is False:
+        return self
+    raise Unsupported('fillna shape')
+
+
+SSeries.m_fillna = _series_fillna
+
+
+def _series_to_numpy(self, ctx):
+    if self.dtype != 'int':
+        raise Unsupported('to_numpy of this dtype')
+    arr = fresh('tn', z3.ArraySort(z3.IntSort(), z3.IntSort()))
+    at = self.at
+    ctx.assume(smt.Forall(0, self.n, lambda i: arr[i] == to_int_term(at(i)), name='tn'))
+    if self.defd is not None:
+        f = smt.Forall(0, self.n, lambda i: self.defd(i), name='cd')
+        ctx.oblige('safe.column_defined.to_numpy', f)
+    return SList('int', self.n, arr, None, 'npint')
+
+
+SSeries.m_to_numpy = _series_to_numpy
+
+
+class _SeriesLoc(Model):
+    """Series.loc[k] on a RangeIndex = the k-th element"""
+
+    def __init__(self, s):
+        self.s = s
+
+    def sym_getitem(self, ctx, idx):
+        return _SeriesILoc(self.s).sym_getitem(ctx, idx)
+
+
+SSeries.a_loc = lambda self, ctx: _SeriesLoc(self)
+
+
+class STableSel(Model):
+    """table[bool Series]"""
+    pytype = 'DataFrame'
+
+    def __init__(self, table, mask):
+        self.table, self.mask = table, mask
+        self._M = None
+
+    def M(self, ctx):
+        if self._M is None:
+            self._M = self.mask.materialize(ctx, 'rowsel')
+            ctx.note_cnt(self._M)
+            ctx.hint(self.table.n)
+            # a positive count has a first selected row; count 0 means no selected row (lemma prop.C02.nosig and its converse by
+            # the defining equations of cnt)
+            M, n = self._M, self.table.n
+            f = fresh_int('firstsel')
+            ctx.assume(z3.Implies(cnt(M, n) > 0, z3.And(f >= 0, f < n, M[f], cnt(M, f) == 0)))
+            ctx.assume(smt.Forall(0, n, lambda j: z3.Implies(j < f, z3.Implies(cnt(M, n) > 0, z3.Not(M[j]))), name='fs'))
+            ctx.assume(smt.Forall(0, n, lambda j: z3.Implies(cnt(M, n) == 0, z3.Not(M[j])), name='ns'))
+            ctx.assume(cnt(M, n) >= 0)
+            ctx.hint(f)
+            self.first = f
+            ctx.used_lemmas.add('prop.C02.nosig')
+        return self._M
+
+    def sym_len(self, ctx):
+        return SInt(cnt(self.M(ctx), self.table.n))
+
+    def a_index(self, ctx):
+        self.M(ctx)
+        return _SelIndex(self)
+
+
+class _SelIndex(Model):
+    def __init__(self, sel):
+        self.sel = sel
+
+    def sym_getitem(self, ctx, idx):
+        if idx != 0:
+            raise Unsupported('index[k] of a row selection for k != 0')
+        M, n = self.sel.M(ctx), self.sel.table.n
+        ctx.safe('selection_not_empty', cnt(M, n) > 0, exc='IndexError')
+        if not self.sel.table.index_is_range:
+            raise Unsupported('labels of a table whose index is not a RangeIndex')
+        return SInt(self.sel.first, 'npint')
+
+
+def _table_getitem2(self, ctx, idx):
+    if isinstance(idx, SSeries) and idx.dtype == 'bool':
+        ctx.safe('mask_same_length', idx.n == self.n, exc='ValueError')
+        return STableSel(self, idx)
+    return _table_getitem1(self, ctx, idx)
+
+
+_table_getitem1 = STable.sym_getitem
+STable.sym_getitem = _table_getitem2
+
+
+def _table_drop(self, ctx, index=None, inplace=False, **kw):
+    if kw or inplace is not True or not is_intlike(index):
+        raise Unsupported('drop shape')
+    if not self.index_is_range:
+        raise Unsupported('drop by label on a table whose index is not a RangeIndex')
+    k = to_int_term(index)
+    ctx.safe('drop_label_present', z3.And(k >= 0, k < self.n), exc='KeyError')
+    ctx.hint(k)
+    old = dict(self.cols)
+    n1 = z3.simplify(self.n - 1)
+    for name, c in old.items():
+        new = SSeries(n1, (lambda i, c=c: c.at(z3.If(lift(i) < k, lift(i), lift(i) + 1))), c.dtype)
+        new.defd = None if c.defd is None else (lambda i, c=c: c.defd(z3.If(lift(i) < k, lift(i), lift(i) + 1)))
+        self.cols[name] = new
+    self.n = n1
+    self.index_is_range = False          # labels now have a gap at k
+    ctx.term_maps.append(lambda t: z3.If(t < k, t, t + 1))
+    return None
+
+
+STable.m_drop = _table_drop
